@@ -15,7 +15,8 @@ RULE = ("request streams played from the daemon side (command, nonfatal flag, cw
         "arguments) through run_generic_phase -> EbuildProcessor.generic_handler -> ebd_ipc.<Helper>.__call__ with one helper "
         "object per helper for the whole stream: (A) install helpers with valid operands, missing files, directories, "
         "unknown options and *opts strings that force the external `install` fallback (-s, --bogus, symbolic modes, -v, -C, "
-        "-b); (B) eapply/eapply_user/unpack (good, non-applying, corrupt, missing inputs), has_version/best_version, "
+        "-b), including multi-target fallback requests in which a target that is not the last one cannot be installed "
+        "(a directory tree sits at its destination); (B) eapply/eapply_user/unpack (good, non-applying, corrupt, missing inputs), has_version/best_version, "
         "docompress/dostrip, filter_env; (C) single install requests with EACCES/ENOSPC/EIO/EROFS injected at the k-th "
         "call of os.makedirs/chmod/lchown/symlink/link/utime/unlink, shutil.copyfile, open under the image (every k in the "
         "thorough tier).  Judged per request: exactly one reply (write or raised IpcError whose .ret run_generic_phase "
@@ -38,7 +39,7 @@ SHARDS = {"quick": 4, "thorough": 16}
 TIMEOUT = {"quick": 240, "thorough": 1100}
 MIN_EVALS = 800
 REQUIRED_COUNTERS = ("requests_judged", "fallback_requests", "fault_runs_fired", "misc_requests", "phase_fatal_failures",
-                     "nonfatal_failures_returned")
+                     "nonfatal_failures_returned", "fallback_blocked_target_requests")
 
 P = hx.PKG_ID
 REPLY_RE = re.compile(r"^(?:0|-?\d+\x07[^\n\r]*)$")
@@ -304,6 +305,34 @@ def scen_install(ctx, base, allow_chown, with_fallback):
         sc.cleanup()
 
 
+def scen_blocked_fallback(ctx, base):
+    """External install fallback with several targets of which one that is not the last cannot be installed (a directory
+    tree sits at its destination name): the reply has to be a failure although later targets install fine."""
+    rng = ctx.rng
+    eapi = rng.choice(igen.EAPIS)
+    tree = igen.gen_tree(rng)
+    names = sorted(rng.sample(["ChangeLog", "README", "conf", "init", "prog", "tool.sh", "vt.h"], rng.randrange(2, 4)))
+    blocked = rng.choice(names[:-1])
+    helper, key, into = rng.choice([("doins", "insopts", "insdesttree"), ("doins", "insopts", "insdesttree"),
+                                    ("doexe", "exeopts", "exedesttree")])
+    sc0 = dict(hx.DEFAULT_SCOPE)
+    sc0[into] = "/usr/share/vt"
+    sc1 = dict(sc0)
+    sc1[key] = rng.choice(["-m0644 -C", "-m0644 -b", "-m u=rw,go=r", "-m0644 -S .bak", "-m0644 --compare"])
+    rng.shuffle(names)
+    script = [{"helper": "dodir", "eapi": eapi, "scope": sc0, "nonfatal": False,
+               "args": ["/usr/share/vt/%s/%s" % (blocked, blocked)]},
+              {"helper": helper, "eapi": eapi, "scope": sc1, "nonfatal": rng.random() < 0.5, "args": names}]
+    sc = hx.Scenario(base, eapi, tree)
+    try:
+        recs = run_records(ctx, sc, hx.ReviveSource(sc, reqs=script), direct=(rng.random() < 0.2))
+        rets = [c["ret"] for c in recs[-1].spawn if c["argv"][0] == "install"]
+        if rets and any(rets):
+            ctx.count("fallback_blocked_target_requests")
+    finally:
+        sc.cleanup()
+
+
 def scen_misc(ctx, base, allow_chown):
     rng = ctx.rng
     eapi = rng.choice(["4", "5", "6", "7", "8", "6", "7", "8"])
@@ -369,12 +398,15 @@ def run(ctx):
     # spawning is the expensive part (about a second per external command on a loaded machine)
     n_inst, n_fb, n_misc, n_fault = ctx.budget(12, 160), ctx.budget(3, 60), ctx.budget(5, 80), ctx.budget(4, 50)
     max_k = ctx.budget(4, 0)
-    total = n_inst + n_fb + n_misc + n_fault
-    plan = ["i"] * n_inst + ["b"] * n_fb + ["m"] * n_misc + ["f"] * n_fault
+    n_blk = ctx.budget(2, 30)
+    total = n_inst + n_fb + n_misc + n_fault + n_blk
+    plan = ["i"] * n_inst + ["b"] * n_fb + ["m"] * n_misc + ["f"] * n_fault + ["k"] * n_blk
     ctx.rng.shuffle(plan)
     for i, kind in enumerate(plan):
         if kind in "ib":
             scen_install(ctx, base, allow_chown, with_fallback=(kind == "b"))
+        elif kind == "k":
+            scen_blocked_fallback(ctx, base)
         elif kind == "m":
             scen_misc(ctx, base, allow_chown)
         else:
